@@ -201,7 +201,11 @@ def contract(name, attrs, info, fixture_src):
     BODY = body_spec(name, attrs, fixture_src)
     RUNS0, RUNS1 = 'old(fx).body_runs@', 'final(fx).body_runs@'
     NOT_STORED = '%s == %s.remove(%s) && %s == rm1(%s, %s)' % (M1, M0, K, Q1, Q0, K)
-    STORED = '(%s.contains_key(%s) ==> %s == ret)' % (M1, K, V1)
+    # async stores after evicting, so the fresh entry is always resident; sync may evict the zero-hit newcomer right away
+    STORED = ('(%s.contains_key(%s) && %s == ret)' if info['scope'] == 'async' else '(%s.contains_key(%s) ==> %s == ret)') % (M1, K, V1)
+    if info['scope'] == 'async' and attrs.get('max_memory') is not None:
+        # a value that alone exceeds max_memory is (rightly) not cached
+        STORED = '(ret.mem() <= old(__cache).max_memory->Some_0 ==> %s)' % STORED
     req = [('wf', 'wf(%s, %s)' % (M0, Q0))]
     # configuration: what the macro passes to ...Cache::new
     a = info['ctor_args']
